@@ -12,6 +12,7 @@ schema extracted from the current `ir_data.py`.
 -/
 import Emboss.Spec.Json
 import Emboss.Lemmas.JsonRtMain
+import Emboss.Lemmas.JsonWf
 import Emboss.Generated.IrSchemaOk
 namespace Emboss.Json
 
@@ -76,6 +77,28 @@ theorem C18_header_equal {α : Type} (gen : Val → α) (S : Schema) (hS : Schem
     Spec.Indistinguishable (toDict S) (fromDict S c) gen m :=
   Spec.indistinguishable_of_roundTrips _ (C18_roundtrip S hS c m h)
 
+/-- Whatever `_from_dict` builds — from *any* dict, not only from `to_dict` output — is a
+well-formed message: the back end of the split pipeline only ever sees well-formed IR
+(values of the declared types, constructor invariants of locations, at most one member per
+oneof group).  Needs, beyond `SchemaOk`, that constructor defaults are values of their
+field's type (`SchemaOkStrict`, decidable). -/
+theorem C18_from_dict_wf (S : Schema) (hS : SchemaOkStrict S) (c : String) (d : Dv) (m : Val)
+    (h : fromDict S c d = some m) : WfMsg S c m :=
+  (wfDecAny S hS d).1 (.msg c) m h
+
+/-- Hence the re-read IR itself round-trips: json → IR → json → IR is stable from the first
+re-read on, for any input text the back end accepts. -/
+theorem C18_reread_stable (S : Schema) (hS : SchemaOkStrict S) (c : String) (d : Dv) (m : Val)
+    (h : fromDict S c d = some m) : Spec.RoundTrips (toDict S) (fromDict S c) m := by
+  have hS' : SchemaOk S := by
+    simp only [SchemaOkStrict, schemaOkStrict, Bool.and_eq_true] at hS
+    exact hS.1
+  exact C18_roundtrip S hS' c m (C18_from_dict_wf S hS c d m h)
+
+theorem C18_from_dict_wf_ir (c : String) (d : Dv) (m : Val)
+    (h : fromDict Generated.schema c d = some m) : WfMsg Generated.schema c m :=
+  C18_from_dict_wf _ Generated.schema_ok_strict c d m h
+
 /-! ### non-vacuity -/
 
 section Examples
@@ -114,6 +137,17 @@ example : toJson schema exFalsy = some
 example : hasField schema (.msg "WriteMethod" [.bool false, .none, .none, .none]) "physical" = true
     ∧ hasField schema (.msg "WriteMethod" [.bool false, .none, .none, .none]) "read_only" = false := by
   decide +kernel
+
+/-- A dict that `to_dict` never produces (two members of oneof `type`, an enum by name, a
+`null`, an unknown key, explicit empty list): `_from_dict` accepts it, the constructor keeps
+the later oneof member, and the result is well-formed. -/
+def exOddDict : Dv :=
+  .dict [("opaque", .dict []), ("boolean", .dict [("value", .bool false)]), ("zzz", .int 1), ("integer", .null)]
+
+example : fromDict schema "ExpressionType" exOddDict
+    = some (.msg "ExpressionType" [.none, .none, .msg "BooleanType" [.bool false], .none]) := by rfl
+example : fromDict schema "Function" (.dict [("function", .str "ADDITION"), ("args", .list [])])
+    = some (.msg "Function" [.enum 1, .list [], .none, .none]) := by rfl
 
 /-- All flag combinations, including the falsy `0:0-0:0`. -/
 example : (Loc.mk ⟨0, 0⟩ ⟨0, 0⟩ false false).toStr = "0:0-0:0"
